@@ -48,7 +48,10 @@ CUBOCTA_V = [[-1.0, -1.0, 0.0], [-1.0, 0.0, -1.0], [0.0, -1.0, -1.0], [-1.0, 1.0
              [1.0, -1.0, 0.0], [1.0, 0.0, -1.0], [0.0, 1.0, -1.0], [1.0, 1.0, 0.0], [1.0, 0.0, 1.0], [0.0, 1.0, 1.0]]
 CUBOCTA_T = [[8, 1, 3], [2, 1, 0], [2, 7, 6], [5, 4, 0], [9, 8, 7], [11, 4, 3], [10, 5, 6], [10, 11, 9], [4, 1, 0], [4, 1, 3],
              [2, 8, 7], [2, 8, 1], [5, 2, 0], [5, 2, 6], [11, 8, 3], [11, 9, 8], [10, 9, 7], [10, 7, 6], [10, 11, 4], [10, 5, 4]]
+# a mesh whose vertex centroid is not the origin of the mesh frame (the origin is still strictly inside)
+TETRA_OFF_V = [[v[0] + 0.25, v[1] + 0.125, v[2] - 0.125] for v in TETRA_V]
 MESHES = {"tetra": (TETRA_V, _orient(TETRA_V, TETRA_T)), "cube": (CUBE_V, _orient(CUBE_V, CUBE_T)),
+          "tetra_off": (TETRA_OFF_V, _orient(TETRA_OFF_V, TETRA_T)),
           "cubocta_raw": (CUBOCTA_V, CUBOCTA_T),
           "octa": (OCTA_V, _orient(OCTA_V, OCTA_T)), "tetra_in": (TETRA_IN_V, TETRA_IN_T),
           "octa_mixed": (OCTA_V, _mixed(_orient(OCTA_V, OCTA_T))), "cube_mixed": (CUBE_V, _mixed(_orient(CUBE_V, CUBE_T)))}
@@ -253,6 +256,7 @@ CORPUS = [
     {"type": "mesh", "mesh": "tetra_in"},
     {"type": "mesh", "mesh": "octa_mixed"},
     {"type": "mesh", "mesh": "cubocta_raw"},
+    {"type": "mesh", "mesh": "tetra_off"},
 ]
 CORPUS_MORE = [
     {"type": "sphere", "radius": 100.0},
